@@ -1,0 +1,16 @@
+//go:build verif
+
+package state
+
+import "github.com/icon-project/goloop/module"
+
+// VerifC06DecodeDoubleSignContext is worldContext.DecodeDoubleSignContext.
+func VerifC06DecodeDoubleSignContext(t string, d []byte) (module.DoubleSignContext, error) {
+	return decodeDoubleSignContext(t, d)
+}
+
+// VerifC06ContextOf returns the double sign context (validators of a height)
+// as the double sign context root of a world state would.
+func VerifC06ContextOf(vl module.ValidatorList, t string) (module.DoubleSignContext, error) {
+	return (&dsContextRoot{vl: vl}).ContextOf(t)
+}
